@@ -9,6 +9,7 @@
 -/
 import ClairModel.Proofs.CodecAccept
 import ClairModel.Proofs.ReportJson
+import ClairModel.Proofs.Duration
 import ClairModel.Gen.Enums
 import ClairModel.Gen.ReportTags
 
@@ -679,6 +680,49 @@ theorem toValidUTF8_ascii (b : Bytes) (h : ∀ c ∈ b, c < 128) : toValidUTF8 b
 theorem wfn_scan_bytes_ascii {W : Type} (unbind : Bytes → Option W) (old : W) (b : Bytes) (h : ∀ c ∈ b, c < 128) :
     wfnScan unbind old (.bytes b) = wfnScan unbind old (.str b) := by
   simp [wfnScan, toValidUTF8_ascii b h]
+
+/-! ## claircore.Duration (duration.go): `time.Duration.String` / `time.ParseDuration`
+
+  The one float64 operation of `ParseDuration` (`f * (unit / scale)`) is the
+  parameter `fm`; `ExactFrac fm` says it is exact whenever the scale divides
+  the unit, which is the only case `String` produces (and what IEEE doubles do
+  for these magnitudes — compared on the real code by the `dur-un` lines). -/
+
+/-- Every Duration — every int64, MinInt64 and MaxInt64 included — survives
+    its text form: `UnmarshalText(MarshalText(d)) == d`. -/
+theorem duration_text_roundtrip (fm : Nat → Nat → Nat → Nat) (hfm : Duration.ExactFrac fm) (d : Int)
+    (hlo : -9223372036854775808 ≤ d) (hhi : d < 9223372036854775808) :
+    Duration.parseDuration fm (Duration.durationString d) = some d :=
+  Duration.parseDuration_durationString fm hfm d hlo hhi
+
+/-- The exact rational computation is such an `fm`. -/
+theorem duration_exact_frac : Duration.ExactFrac Duration.fracMulExact := fun _ _ _ _ => rfl
+
+/-- Whatever text `ParseDuration` accepts, the value is an int64. -/
+theorem duration_decode_range (fm : Nat → Nat → Nat → Nat) (s : Bytes) (d : Int)
+    (h : Duration.parseDuration fm s = some d) : -9223372036854775808 ≤ d ∧ d < 9223372036854775808 :=
+  Duration.parseDuration_range fm s d h
+
+/-- No partial mutation: a rejected text leaves the receiver as it was. -/
+theorem duration_unmarshal_receiver (fm : Nat → Nat → Nat → Nat) (old : Int) (t : Bytes) :
+    (Duration.parseDuration fm t = none → Duration.durationUnmarshal fm old t = (old, false)) ∧
+    (∀ d, Duration.parseDuration fm t = some d → Duration.durationUnmarshal fm old t = (d, true)) := by
+  unfold Duration.durationUnmarshal
+  constructor
+  · intro h; rw [h]
+  · intro d h; rw [h]
+
+/-- The decoder is not strict: the sum of the groups is kept in a uint64 whose
+    wrap-around the standard library does not notice, so
+    "9223372036854775808ns9223372036854775808ns" (2^63 ns twice) is accepted — as 0. -/
+theorem duration_group_sum_wraps_counterexample :
+    Duration.parseDuration Duration.fracMulExact
+      (showNat 9223372036854775808 ++ [110, 115] ++ showNat 9223372036854775808 ++ [110, 115]) = some 0 := by
+  have h : showNat 9223372036854775808 =
+      [57, 50, 50, 51, 51, 55, 50, 48, 51, 54, 56, 53, 52, 55, 55, 53, 56, 48, 56] := by
+    simp [showNat]
+  rw [h]
+  decide
 
 /-- Non-vacuity: a concrete version with extreme int32 slots meets the
     hypotheses of the round-trip theorem. -/
